@@ -124,6 +124,8 @@ def rule_writers(ctx, rule='WRITERS'):
     for k, s in callers_of_basis('set_value'):
         b = f.bodies[k]
         okc = f.norm(b.impl_self_adt or '') == 'basis::StandardBasis' and b.fn_name == 'set_sampled'
+        # ... or the trait's own provided set_sampled (the body every implementor without an override gets)
+        okc = okc or (b.fn_name == 'set_sampled' and not b.impl_self_adt and f.norm(b.path) == 'traits::Basis::set_sampled')
         good &= rep.check(okc, rule, 'caller-of-Basis::set_value:%s' % b.path, where(b, s['bb']),
                           'set_sampled only', 'Basis::set_value is called from somewhere other than set_sampled')
     from ..anchors import OptimiserAnchors, AnchorLost
